@@ -288,6 +288,20 @@ static void real_run(int run, vt::rng& g, int iters)
     }
 }
 
+// data that vanish in one dimension only (possible for hand-made data, or results added by hand): that dimension keeps its grid, the others are refined
+template <typename T>
+static void zero_dimension_cases(vt::rng& g)
+{
+    std::size_t const B = 6;
+    for (int zd = 0; zd != 3; ++zd)
+    {
+        hep::vegas_pdf<T> pdf(3, B);
+        std::vector<T> data;
+        for (int d = 0; d != 3; ++d) for (std::size_t b = 0; b != B; ++b) data.push_back(d == zd ? T() : T(1 + g.below(50)) / T(7));
+        ref_step("zero-dimension", 5000 + zd, 0, pdf, T(1.5), data);
+    }
+}
+
 // an iteration whose values cancel exactly (estimate 0) but whose squares do not vanish: the grid is refined like after any other
 template <typename T>
 static void cancel_case(std::size_t B, T alpha, int run)
@@ -348,6 +362,8 @@ static void defaults_and_icdf(vt::rng& g)
     }
 }
 
+static void zero_dimension_all(vt::rng& g) { zero_dimension_cases<float>(g); zero_dimension_cases<double>(g); zero_dimension_cases<long double>(g); }
+
 int main(int argc, char** argv)
 {
     if (argc < 4) return 2;
@@ -359,6 +375,7 @@ int main(int argc, char** argv)
     grid_cases<double>(2, g, thorough); grid_cases<float>(3, g, thorough);
     if (thorough) { grid_cases<long double>(3, g, true); grid_cases<float>(4, g, true); grid_cases<double>(4, g, true); }
     defaults_and_icdf<float>(g); defaults_and_icdf<double>(g); defaults_and_icdf<long double>(g);
+    zero_dimension_all(g);
     chains<float>(g, thorough ? 40 : 8, thorough ? 200 : 40);
     chains<double>(g, thorough ? 40 : 8, thorough ? 200 : 40);
     chains<long double>(g, thorough ? 40 : 8, thorough ? 200 : 40);
